@@ -65,6 +65,7 @@ type state struct {
 	ghost  map[string]string
 	top    string
 	defers []deferEntry
+	preserve []preserveLoc // non-escaping local cells (see escape.go)
 }
 
 type deferEntry struct {
@@ -85,6 +86,7 @@ func (s *state) clone() *state {
 		n.ghost[k] = v
 	}
 	n.defers = append([]deferEntry(nil), s.defers...)
+	n.preserve = append([]preserveLoc(nil), s.preserve...)
 	return n
 }
 
@@ -626,6 +628,15 @@ func (v *vc) merge(edges []edge) *state {
 		n.ghost[k] = mergeTerms("ghost "+k, v.ghostSorts[k], func(s *state) string { return s.ghost[k] })
 	}
 	n.top = mergeTerms("top", "Int", func(s *state) string { return s.top })
+	seenP := map[preserveLoc]bool{}
+	for _, e := range edges {
+		for _, p := range e.st.preserve {
+			if !seenP[p] {
+				seenP[p] = true
+				n.preserve = append(n.preserve, p)
+			}
+		}
+	}
 	// defers: union with guards
 	seen := map[*ssa.Defer]int{}
 	for i, e := range edges {
